@@ -141,6 +141,10 @@ def setup(ctx):
     jobs.append(common.module_job("m3", dbs, "-python-native"))
     jobs.append(common.module_job("m1", {"liba.in": dbs["liba.in"]}, "-python"))
     jobs.append(common.module_job("m2", {"libb.in": dbs["libb.in"], "liba.in": dbs["liba.in"]}, "-python-native", extra=["-import", "other.core"]))
+    # a requested output whose name is empty (an unset variable in a build script): nothing can be written there
+    for base in [j for j in jobs if j["name"] in ("m1", "rich-c", "rich-oh", "rich-od")]:
+        for ch, rel in sorted(base["outputs"].items()):
+            jobs.append(dict(base, name=base["name"] + "-empty-" + ch, argv=["" if a == rel else a for a in base["argv"]]))
     JOBS = jobs
     GOLDEN = [_golden_for(j, i) for i, j in enumerate(jobs)]
 
@@ -166,6 +170,10 @@ def _fault_points(ji):
             pts.append({"ch": ch, "op": "write", "k": k, "action": "shortok", "n": max(1, size // 3)})
         for e in CLOSE_ERRNOS:
             pts.append({"ch": ch, "op": "close", "k": 1, "action": "fail", "err": e})
+    if job["tool"] == "interrogate" and "-srcdir" in job["argv"]:
+        # the working directory has been removed under the tool (getcwd fails): none of the relative output paths can be
+        # opened, whatever -srcdir (given as an absolute path here) the tool changes into afterwards
+        pts.append({"ch": sorted(job["outputs"])[0], "op": "real", "kind": "cwdgone"})
     return pts
 
 
@@ -247,6 +255,7 @@ def execute(plan):
                 "hash": runner.sha(json.dumps([plan, r.outcome(), missing], sort_keys=True)), "nontrivial": False, "fired": {}, "planned": [],
                 "status": r.outcome(), "partial": [], "signal": bool(r.signal)}
     rules = []
+    cwdgone = False
     lost_real = set()   # channels whose target cannot hold the data by construction
     for f in plan["faults"]:
         if f["op"] == "real":
@@ -260,10 +269,21 @@ def execute(plan):
                 os.makedirs(target)
             elif f["kind"] == "devfull":
                 os.symlink("/dev/full", target)
+            elif f["kind"] == "cwdgone":
+                cwdgone = True
+                lost_real.update(job["outputs"])
             lost_real.add(f["ch"])
         else:
             rules.append(_rule(job, f))
-    r = common.run_job(job, root, plan["build"], plan=rules, env=ENV)
+    if cwdgone:
+        argv = list(job["argv"])
+        i = argv.index("-srcdir")
+        argv[i + 1] = os.path.join(root, argv[i + 1])
+        os.makedirs(os.path.join(root, "gone"))
+        wrapper = ["/bin/sh", "-c", 'cd gone && rmdir ../gone && exec "$0" "$@"', build.tool(plan["build"], job["tool"])] + argv
+        r = runner.run_tool(wrapper, cwd=root, root=root, plan=rules, env=ENV, san=(plan["build"] == "san"))
+    else:
+        r = common.run_job(job, root, plan["build"], plan=rules, env=ENV)
     out = common.collect_outputs(job, root)
     for ch in lost_real:
         out[ch] = None
